@@ -8,7 +8,7 @@ CFG = {
                   "invariant that every operation preserves inside COMMITTED brackets; rolled-back / failed-commit "
                   "brackets preserve it only for the deferred (OnCommit) mutations of nextAddresses - the eager "
                   "mutators are shown by counter-example theorems and Go replays to leave memory ahead of disk.",
-    "level_note": "PARTIAL on the current tree: after a rolled-back or failed transaction the running manager keeps eager "
+    "level_note": "Proved: coherent caches answer every query as a reopened manager; coherence is an invariant of every history of single-transaction operations (C08_mem_eq_reopen_partial); a rolled-back NextAddresses keeps the index and the next request issues what a restart would (C08_rollback_keeps_index / _next_after_rollback). PARTIAL on the current tree for explicit multi-operation brackets and rollbacks after success: after a rolled-back or failed transaction the running manager keeps eager "
                   "cache updates (address cache, account name, extendAddresses indices, imports, sync state). These are "
                   "reported as findings with stable oracle keys (C08 key=rollback.*); the theorems that hold are proved, "
                   "the others carry explicit hypotheses.",
